@@ -11,6 +11,7 @@ EXTENDS Integers, Sequences, SequencesExt, FiniteSets, TLC, TLCExt, Json, IOUtil
 
 J == INSTANCE JsonCodec
 C == INSTANCE CPyConst
+D == INSTANCE JsonDoc
 
 Tr == ndJsonDeserialize(IOEnv.TRACE_FILE)
 Schema == Tr[1].tree
@@ -32,15 +33,20 @@ Clauses(e) ==
        THEN << <<"ENV.schema", e.js_ran => (e.js_ok = valid)>> >>
        ELSE <<
         <<"ENV.schema", e.js_ran => (e.js_ok = valid)>>,
-        <<"P07.noraise", okrun>>,
-        <<"P07.plain", e.to_exc = "" => J!Plain(e.tree)>>,
-        <<"P07.schema", e.to_exc = "" => (valid /\ (e.js_ran => e.js_ok))>>,
-        <<"P07.equal", okrun => (e.eq /\ e.hash)>>,
-        <<"P07.code", okrun => e.code>>,
+        \* (a hand-built shape of MC_Doc counts for C07 only if decoding can produce it: e.decodable)
+        <<"P07.noraise", e.decodable => okrun>>,
+        <<"P07.plain", (e.decodable /\ e.to_exc = "") => J!Plain(e.tree)>>,
+        <<"P07.schema", (e.decodable /\ e.to_exc = "") => (valid /\ (e.js_ran => e.js_ok))>>,
+        <<"P07.equal", (e.decodable /\ okrun) => (e.eq /\ e.hash)>>,
+        <<"P07.code", (e.decodable /\ okrun) => e.code>>,
+        \* any data, decodable or not: the codec neither raises nor loses anything on the shapes of MC_Doc
+        <<"S07.shape", e.has_abs => (okrun /\ e.eq /\ e.hash /\ e.code /\ J!Plain(e.tree) /\ valid)>>,
         \* C12 on the JSON codec: arguments untouched, repeatable, no aliasing with returned documents
         <<"P12.json_pure", okrun => (e.pure_to /\ e.pure_from)>>,
         <<"P12.json_repeat", okrun => e.repeat_eq>>,
         <<"P12.json_alias", okrun => ~e.alias>>,
+        \* the whole document is the documented form (binding of JsonDoc!DocOf)
+        <<"M.doc", (e.has_abs /\ e.to_exc = "") => e.dtree = D!DocOf(e.abs)>>,
         \* the constant's JSON is the documented form (binding of CPyConst!ToJson)
         <<"M.tojson", (e.has_term /\ e.to_exc = "" /\ ~e.absent /\ e.pos \in {"operand", "additional", "nested"}) =>
               J!CanonTree(e.ctree) = J!CanonTree(C!ToJson(TermOf(e.term)))>>
